@@ -6,102 +6,14 @@
 (* sound on every conformant environment (so the bracket                   *)
 (* "must-accept => accepted => sound" is consistent).                      *)
 (***************************************************************************)
-EXTENDS TypedWorld, Json
+EXTENDS PolicyPool, Json
 
 VARIABLES coord, c
-
-Pv == <<"var", "principal">>
-Rv == <<"var", "resource">>
-Cv == <<"var", "context">>
-Av == <<"var", "action">>
-G_(e, a) == <<"get", e, a>>
-H_(e, a) == <<"has", e, a>>
-B_(op, a, b) == <<"bin", op, a, b>>
-And_(a, b) == <<"and", a, b>>
-Or_(a, b) == <<"or", a, b>>
-Not_(a) == <<"not", a>>
-If_(a, b, d) == <<"if", a, b, d>>
-LitL(n) == <<"lit", TL(n)>>
-LitS(cps) == <<"lit", <<"str", cps>>>>
-TT_ == <<"lit", TrueV>>
-FF_ == <<"lit", FalseV>>
-
-\* access atoms: <<expression, matching guard, needsView>>
-Atoms == <<
-  <<G_(Pv, "opt"), H_(Pv, "opt"), FALSE>>,
-  <<G_(G_(Pv, "mgr"), "n"), H_(Pv, "mgr"), FALSE>>,
-  <<G_(G_(Pv, "mgr"), "opt"), And_(H_(Pv, "mgr"), H_(G_(Pv, "mgr"), "opt")), FALSE>>,
-  <<G_(G_(Pv, "rec"), "inner"), H_(G_(Pv, "rec"), "inner"), FALSE>>,
-  <<B_("getTag", Pv, LitS(TagK)), B_("hasTag", Pv, LitS(TagK)), FALSE>>,
-  <<G_(Cv, "lim"), H_(Cv, "lim"), TRUE>>,
-  <<G_(G_(Rv, "owner"), "opt"), H_(G_(Rv, "owner"), "opt"), FALSE>>,
-  <<G_(Pv, "n"), TT_, FALSE>>,
-  <<B_("add", G_(G_(Pv, "mgr"), "n"), LitL(1)), H_(Pv, "mgr"), FALSE>>,      \* may overflow: allowed
-  <<G_(G_(G_(Rv, "owner"), "mgr"), "n"), H_(G_(Rv, "owner"), "mgr"), FALSE>>
->>
-NA == Len(Atoms)
-Use(i) == B_("less", Atoms[i][1], LitL(10))
-Guard(i) == Atoms[i][2]
-\* guard pool for atom i: 1 matching, 2 the next atom's guard, 3 true, 4 an unrelated comparison
-GuardOf(i, k) == CASE k = 1 -> Guard(i) [] k = 2 -> Guard((i % NA) + 1) [] k = 3 -> TT_ [] k = 4 -> B_("less", G_(Pv, "n"), LitL(5))
-
-NK == 13
-Conn(k, g, g2, u) ==
-  CASE k = 1 -> And_(g, u)
-    [] k = 2 -> And_(u, g)
-    [] k = 3 -> Or_(g, u)
-    [] k = 4 -> Or_(Not_(g), u)
-    [] k = 5 -> And_(Or_(g, g2), u)
-    [] k = 6 -> And_(And_(g, g2), u)
-    [] k = 7 -> If_(g, u, FF_)
-    [] k = 8 -> If_(g, TT_, u)
-    [] k = 9 -> If_(Not_(g), FF_, u)
-    [] k = 10 -> And_(g, And_(TT_, u))
-    [] k = 11 -> Not_(And_(g, u))
-    [] k = 12 -> u
-    [] k = 13 -> And_(And_(g2, g), u)
-
-AnyC == <<"any">>
-Scopes == <<
-  [effect |-> "permit", principal |-> AnyC, action |-> <<"eq", TView>>, resource |-> AnyC],
-  [effect |-> "permit", principal |-> AnyC, action |-> AnyC, resource |-> AnyC],
-  [effect |-> "permit", principal |-> <<"is", "User">>, action |-> <<"in", TAll>>, resource |-> <<"is", "Doc">>],
-  [effect |-> "forbid", principal |-> <<"eq", TU1>>, action |-> <<"eq", TEdit>>, resource |-> AnyC],
-  [effect |-> "permit", principal |-> <<"in", TG>>, action |-> <<"eq", TView>>, resource |-> <<"eq", TD>>]
->>
-ScopeIsViewOnly(s) == s \in {1, 5}
-
-Pol(s, conds) == [id |-> "p", effect |-> Scopes[s].effect, principal |-> Scopes[s].principal, action |-> Scopes[s].action,
-                  resource |-> Scopes[s].resource, conds |-> conds, slots |-> <<>>]
-
-\* type probes: <<expression, mustAccept>>
-Probes == <<
-  <<B_("eq", G_(Pv, "n"), LitS(<<97>>)), FALSE>>,
-  <<B_("less", G_(Pv, "n"), LitS(<<97>>)), FALSE>>,
-  <<B_("in", Pv, G_(Rv, "owner")), TRUE>>,
-  <<B_("contains", <<"set", <<LitL(1), LitS(<<97>>)>>>>, LitL(1)), FALSE>>,
-  <<<<"like", G_(Pv, "n"), <<97>>>>, FALSE>>,
-  <<B_("less", G_(Pv, "missing"), LitL(1)), FALSE>>,
-  <<And_(B_("less", G_(Pv, "n"), LitL(9)), G_(Pv, "n")), FALSE>>,
-  <<B_("eq", If_(B_("less", G_(Pv, "n"), LitL(9)), LitL(1), LitS(<<97>>)), LitL(1)), FALSE>>,
-  <<B_("less", G_(G_(G_(Pv, "mgr"), "mgr"), "n"), LitL(1)), FALSE>>,
-  <<B_("less", G_(G_(Rv, "owner"), "n"), LitL(10)), TRUE>>,
-  <<And_(B_("eq", Av, <<"lit", TView>>), B_("less", G_(Cv, "lim"), LitL(1))), FALSE>>,
-  <<B_("less", B_("getTag", Pv, LitS(<<122, 122>>)), LitL(1)), FALSE>>,
-  <<H_(Pv, "zzz"), TRUE>>,
-  <<<<"is", Pv, "Doc">>, TRUE>>,
-  <<B_("eq", G_(Rv, "pub"), TT_), TRUE>>,
-  <<And_(B_("in", Pv, <<"lit", TG>>), B_("less", G_(Pv, "n"), LitL(3))), TRUE>>,
-  <<B_("less", B_("mul", G_(Pv, "n"), G_(G_(Rv, "owner"), "n")), LitL(3)), TRUE>>,
-  <<B_("eq", G_(Pv, "mgr"), Pv), FALSE>>,
-  <<And_(H_(Pv, "mgr"), B_("eq", G_(Pv, "mgr"), Pv)), TRUE>>,
-  <<B_("hasTag", Rv, LitS(TagK)), FALSE>>
->>
 
 Coords == {<<"atom", i, s>> : i \in 1..NA, s \in 1..Len(Scopes)} \cup {<<"probe", s>> : s \in 1..Len(Scopes)}
 
 \* a case: [policy, must]
-MustConn(k, gk, g2k) == (k \in {1, 7, 10} /\ gk = 1) \/ (k \in {6, 13} /\ gk = 1 /\ g2k \in {2, 3, 4})
+MustConn(k, gk, g2k) == (k \in {1, 7, 10, 19, 20} /\ gk = 1) \/ (k \in {6, 13} /\ gk = 1 /\ g2k \in {2, 3, 4})
 CasesOf(k) ==
   IF k[1] = "atom"
   THEN LET i == k[2] s == k[3]
@@ -109,7 +21,7 @@ CasesOf(k) ==
             must |-> (MustConn(kk, gk, g2k) \/ (i = 8 /\ kk = 12)) /\ (Atoms[i][3] => ScopeIsViewOnly(s))
                      \* the second guard of the pool must itself be well-typed in this scope
                      /\ (kk \in {6, 13} /\ g2k = 2 => (Atoms[(i % NA) + 1][3] => ScopeIsViewOnly(s)))]
-            : kk \in 1..NK, gk \in 1..4, g2k \in {2, 4}}
+            : kk \in 1..NK, gk \in 1..4, g2k \in {2, 3, 4}}
           \cup {[policy |-> Pol(s, <<<<"unless", Not_(And_(Guard(i), Use(i)))>>>>),
                  must |-> (Atoms[i][3] => ScopeIsViewOnly(s))]}
   ELSE {[policy |-> Pol(k[2], <<<<"when", Probes[j][1]>>>>), must |-> Probes[j][2]] : j \in 1..Len(Probes)}
